@@ -393,6 +393,11 @@ func (c *Channel) PutMessageDeferred(msg *Message, timeout time.Duration) {
 
 // TouchMessage resets the timeout for an in-flight message
 func (c *Channel) TouchMessage(clientID int64, id MessageID, clientMsgTimeout time.Duration) error {
+	// the message leaves the in-flight set and comes back: the read lock keeps
+	// Empty() out in between (see protocolV2.FIN), otherwise the message it has
+	// just discarded returns to the set, unknown to the client's in-flight count
+	c.RLock()
+	defer c.RUnlock()
 	msg, err := c.popInFlightMessage(clientID, id)
 	if err != nil {
 		return err
